@@ -16,7 +16,7 @@ CONSTANT NT
 Trials == 0 .. (NT - 1)
 NaN == -1
 
-VARIABLES cf,        \* [min : BOOLEAN]
+VARIABLES cf,        \* [min : BOOLEAN, min2 : BOOLEAN]
           handed,    \* Seq of <<t, v>>: every result the back-end handed to the tuning loop, in order
           delivered, \* Seq of <<t, v, d>>: results passed to the scheduler with its decision, in order
           flags
@@ -58,12 +58,26 @@ EvFinal(rows, rowsback, cfgok, bestT, bestL, pstats, ostats) ==
        \cup Flag(\E t \in Trials : Of(handed, t) # <<>> /\ ~StatOK(Of(handed, t), pstats[t + 1]), "trial_statistics")
        \cup Flag(~StatOK(handed, ostats), "overall_statistics")
   /\ UNCHANGED <<cf, handed, delivered>>
+\* Several metrics with different modes: a second metric m2 = K - m is reported along (so its order is the reverse of
+\* m's), the scheduler's mode is the list <<mode of m, mode of m2>> with cf.min2 = (mode of m2 is "min").
+\*   t2 = trial of Tuner.best_config(metric = 1), l2 = trial of the loaded experiment's best_config(metric = "m2"),
+\*   p  = trial named in the summary Tuner.run prints at the end (first metric, with ITS mode);  -2 = not applicable
+Opt2(S) == IF cf.min2 THEN MaxSet(S) ELSE MinSet(S)
+EvBestMore(rows, t2, l2, p) ==
+  /\ flags' = flags
+       \cup Flag(Num(handed) # {} /\ t2 # -2 /\ (t2 \notin Trials \/ ~\E i \in Num(handed) : handed[i] = <<t2, Opt2(ValsOf(handed))>>),
+                 "tuner_best_not_optimal")
+       \cup Flag(Num(rows) # {} /\ l2 # -2 /\ (l2 \notin Trials \/ ~\E i \in Num(rows) : rows[i][1] = l2 /\ rows[i][2] = Opt2(ValsOf(rows))),
+                 "loaded_best_not_optimal")
+       \cup Flag(Num(handed) # {} /\ p # -2 /\ (p \notin Trials \/ ~\E i \in Num(handed) : handed[i] = <<p, Opt(ValsOf(handed))>>),
+                 "printed_best_not_optimal")
+  /\ UNCHANGED <<cf, handed, delivered>>
 EvCrash == flags' = flags \cup {"raised"} /\ UNCHANGED <<cf, handed, delivered>>
 
 InitCommon(c) == cf = c /\ handed = <<>> /\ delivered = <<>> /\ flags = {}
 NoFlag(f) == f \notin flags
 RowPerDelivered == NoFlag("rows_differ_from_delivered") /\ NoFlag("delivered_not_handed")
 ReadBackEqual   == NoFlag("table_changed_on_disk") /\ NoFlag("row_config_or_stamp_wrong")
-BestIsArgOpt    == NoFlag("tuner_best_not_optimal") /\ NoFlag("loaded_best_not_optimal")
+BestIsArgOpt    == NoFlag("tuner_best_not_optimal") /\ NoFlag("loaded_best_not_optimal") /\ NoFlag("printed_best_not_optimal")
 StatsMatch      == NoFlag("trial_statistics") /\ NoFlag("overall_statistics")
 =============================================================================
